@@ -1,10 +1,12 @@
 use crate::driver::Check;
 
 pub mod c04;
+pub mod c05;
+pub mod c11;
 pub mod c12;
 
 pub fn registry() -> Vec<&'static dyn Check> {
-    vec![&c04::C04, &c12::C12]
+    vec![&c04::C04, &c05::C05, &c11::C11, &c12::C12]
 }
 
 pub fn find(id: &str) -> Option<&'static dyn Check> {
